@@ -117,7 +117,8 @@ fn plan16(seed: u64, run: u64, tier: Tier) -> Plan16 {
     let mut rng = Rng::new(mix(mix(seed, 0xC16), run));
     let n_rw = rng.range(1, 4);
     let mut rewriters: Vec<RwSpec> = Vec::new();
-    let prefixes = ["test", "abcxyz", "p_1"];
+    // valid identifier parts, including non-ASCII letters
+    let prefixes = ["test", "abcxyz", "p_1", "a\u{f1}b", "$x"];
     for i in 0..n_rw {
         let explicit = if rng.chance(1, 2) { Some(prefixes[i % prefixes.len()]) } else { None };
         let cfg = if i > 0 && rng.chance(1, 4) {
